@@ -116,11 +116,12 @@ CheckEndpoint(V, e, depth) ==
     IF e.k = "url" THEN "ok"
     ELSE IF ~WellFormed(e.f) THEN "bad-ref"
     ELSE Res(V, e.d, e.t, depth, DefaultDepth).v
-\* causes for which Validate(next) may fail (which one is reported depends on the iteration order of a Go map)
-Causes(V, nd) ==
-    {CheckEndpoint(V, nd.svc[t], ValDepth) : t \in {x \in Types : nd.svc[x].k \in {"url", "ref"}}}
+\* causes for which Validate(next) may fail (which one is reported depends on the iteration order of a Go map);
+\* vd: the depth at which the reference of a service is resolved
+CausesW(V, nd, vd) ==
+    {CheckEndpoint(V, nd.svc[t], vd) : t \in {x \in Types : nd.svc[x].k \in {"url", "ref"}}}
     \cup UNION {{CheckEndpoint(V, nd.svc[t].m[n], 0) : n \in DOMAIN nd.svc[t].m} : t \in {x \in Types : nd.svc[x].k = "map"}}
-Validate(V, d, nd) == Causes([V EXCEPT ![d] = nd], nd) \ {"ok"}      \* {} = accepted; the cache is seeded with next
+ValidateW(V, d, nd, vd) == CausesW([V EXCEPT ![d] = nd], nd, vd) \ {"ok"}      \* {} = accepted; the cache is seeded with next
 
 \* what a user of a managed document relies on: Resolve(MakeServiceReference(d, t), default) succeeds, and every
 \* reference in a compound service of the document can be followed by GetCompoundServiceEndpoint
@@ -129,13 +130,35 @@ Resolvable(V, d, t) ==
     /\ V[d].svc[t].k = "map" => \A n \in DOMAIN V[d].svc[t].m : CheckEndpoint(V, V[d].svc[t].m[n], 0) = "ok"
 Unresolvable(V) == {<<d, t>> \in Managed \X Types : V[d].st = "active" /\ HasSvc(V[d], t) /\ ~Resolvable(V, d, t)}
 
-\* didman.referencedService
-FormSeen(f) == IF InUseExactString THEN f = "canon" ELSE WellFormed(f)
-Mentions(e, d, t) ==
-    \/ e.k = "ref" /\ e.d = d /\ e.t = t /\ FormSeen(e.f)
-    \/ e.k = "map" /\ \E n \in DOMAIN e.m : e.m[n].k = "ref" /\ e.m[n].d = d /\ e.m[n].t = t /\ FormSeen(e.m[n].f)
-InUse(V, d, t) ==
-    \E x \in (IF InUseSameDocOnly THEN {d} ELSE {m \in Managed : V[m].st = "active"}), y \in Types : Mentions(V[x].svc[y], d, t)
+\* didman.referencedService; same: only the document of the service is searched; exact: only the canonical spelling is seen
+Mentions(e, d, t, exact) ==
+    LET seen(f) == IF exact THEN f = "canon" ELSE WellFormed(f) IN
+    \/ e.k = "ref" /\ e.d = d /\ e.t = t /\ seen(e.f)
+    \/ e.k = "map" /\ \E n \in DOMAIN e.m : e.m[n].k = "ref" /\ e.m[n].d = d /\ e.m[n].t = t /\ seen(e.m[n].f)
+InUseW(V, d, t, same, exact) ==
+    \E x \in (IF same THEN {d} ELSE {m \in Managed : V[m].st = "active"}), y \in Types : Mentions(V[x].svc[y], d, t, exact)
+
+\* verdict of addService + Manager.Update up to the validation.  c = [d, t, e]
+AddVerdict(V, c, vd) ==
+    LET cur == V[c.d]
+        nd == [cur EXCEPT !.svc[c.t] = c.e]
+        bad == ValidateW(V, c.d, nd, vd)
+    IN IF cur.st = "none" THEN [v |-> "not-found", causes |-> {}, nd |-> cur]
+       ELSE IF cur.st = "deact" THEN [v |-> "deactivated", causes |-> {}, nd |-> cur]
+       ELSE IF HasSvc(cur, c.t) THEN [v |-> "duplicate", causes |-> {}, nd |-> cur]
+       ELSE IF bad # {} THEN [v |-> "invalid", causes |-> bad, nd |-> cur]
+       ELSE [v |-> "ok", causes |-> {}, nd |-> nd]
+\* verdict of deleteService: resolve, find, referencedService, Manager.Update validates the remaining document.  c = [d, t]
+DeleteVerdict(V, c, vd, same, exact) ==
+    LET cur == V[c.d]
+        nd == [cur EXCEPT !.svc[c.t] = NoSvc]
+        bad == ValidateW(V, c.d, nd, vd)
+    IN IF cur.st = "none" THEN [v |-> "not-found", causes |-> {}, nd |-> cur]
+       ELSE IF cur.st = "deact" THEN [v |-> "deactivated", causes |-> {}, nd |-> cur]
+       ELSE IF ~HasSvc(cur, c.t) THEN [v |-> "no-service", causes |-> {}, nd |-> cur]
+       ELSE IF InUseW(V, c.d, c.t, same, exact) THEN [v |-> "in-use", causes |-> {}, nd |-> cur]
+       ELSE IF bad # {} THEN [v |-> "invalid", causes |-> bad, nd |-> cur]
+       ELSE [v |-> "ok", causes |-> {}, nd |-> nd]
 
 \* didman.GetCompoundServiceEndpoint(d, ct, n, rr)
 GetC(V, c) ==
@@ -223,41 +246,22 @@ NetUpdate(d, nd) ==
 \* didman.callSerializer: one handler per DID; handlers of different DIDs interleave (PerDidLock)
 MayEnter(p, d) == \A q \in Procs \ {p} : ops[q].pc = "checked" => (PerDidLock /\ ops[q].d # d)
 
-Finish(p, c, kind, v, causes) ==
-    /\ ops' = [ops EXCEPT ![p] = [pc |-> "done", kind |-> kind, c |-> c, d |-> c.d, v |-> v, causes |-> causes]]
-    /\ Log([a |-> kind, p |-> p, c |-> c, v |-> v, causes |-> causes])
-Checked(p, c, kind, nd) ==
-    /\ ops' = [ops EXCEPT ![p] = [pc |-> "checked", kind |-> kind, c |-> c, d |-> c.d, nd |-> nd]]
-    /\ Log([a |-> kind, p |-> p, c |-> c, v |-> "ok", causes |-> {}])
+\* r: the verdict of the code as configured; rp: the verdict of the repaired code (logged so that a conformance
+\* run can tell a repaired deviation from an arbitrary difference)
+Conclude(p, c, kind, r, rp) ==
+    /\ nops' = nops + 1
+    /\ ops' = [ops EXCEPT ![p] = IF r.v = "ok" THEN [pc |-> "checked", kind |-> kind, c |-> c, d |-> c.d, nd |-> r.nd]
+                                 ELSE [pc |-> "done", kind |-> kind, c |-> c, d |-> c.d, v |-> r.v, causes |-> r.causes]]
+    /\ Log([a |-> kind, p |-> p, c |-> c, v |-> r.v, causes |-> r.causes, vp |-> rp.v])
+    /\ UNCHANGED <<docs, rs, nnet, broken>>
 
-\* addService: resolve, duplicate type?, Manager.Update: validate
 AddCheck(p, c) ==
     /\ ops[p].pc \in {"idle", "done"} /\ nops < MaxOps /\ c.d \in Managed /\ MayEnter(p, c.d)
-    /\ nops' = nops + 1
-    /\ LET cur == docs[c.d]
-           nd == [cur EXCEPT !.svc[c.t] = c.e]
-           bad == Validate(docs, c.d, nd)
-       IN IF cur.st = "none" THEN Finish(p, c, "Add", "not-found", {})
-          ELSE IF cur.st = "deact" THEN Finish(p, c, "Add", "deactivated", {})
-          ELSE IF HasSvc(cur, c.t) THEN Finish(p, c, "Add", "duplicate", {})
-          ELSE IF bad # {} THEN Finish(p, c, "Add", "invalid", bad)
-          ELSE Checked(p, c, "Add", nd)
-    /\ UNCHANGED <<docs, rs, nnet, broken>>
+    /\ Conclude(p, c, "Add", AddVerdict(docs, c, ValDepth), AddVerdict(docs, c, 1))
 
-\* deleteService: resolve, find, referencedService, Manager.Update: validate the remaining document
 DeleteCheck(p, c) ==
     /\ ops[p].pc \in {"idle", "done"} /\ nops < MaxOps /\ c.d \in Managed /\ MayEnter(p, c.d)
-    /\ nops' = nops + 1
-    /\ LET cur == docs[c.d]
-           nd == [cur EXCEPT !.svc[c.t] = NoSvc]
-           bad == Validate(docs, c.d, nd)
-       IN IF cur.st = "none" THEN Finish(p, c, "Delete", "not-found", {})
-          ELSE IF cur.st = "deact" THEN Finish(p, c, "Delete", "deactivated", {})
-          ELSE IF ~HasSvc(cur, c.t) THEN Finish(p, c, "Delete", "no-service", {})
-          ELSE IF InUse(docs, c.d, c.t) THEN Finish(p, c, "Delete", "in-use", {})
-          ELSE IF bad # {} THEN Finish(p, c, "Delete", "invalid", bad)
-          ELSE Checked(p, c, "Delete", nd)
-    /\ UNCHANGED <<docs, rs, nnet, broken>>
+    /\ Conclude(p, c, "Delete", DeleteVerdict(docs, c, ValDepth, InUseSameDocOnly, InUseExactString), DeleteVerdict(docs, c, 1, FALSE, FALSE))
 
 \* Manager.Update: transaction + store.Add of the version computed by the handler
 OpWrite(p) ==
